@@ -245,18 +245,23 @@ def merge_case_major(trace_sets, out_path):
 
 
 def run_apalache_law(law, timeout=600):
-    """Decides one arithmetic law of spec/APA_Arith.tla over the full 32-bit domain with Apalache."""
-    out = os.path.join(WORK, "apalache-%s-%d" % (law, os.getpid()))
+    """Decides one law with Apalache. law = "Name" (invariant of spec/APA_Arith.tla at length 0, full 32-bit domain)
+    or (module, init predicate, invariant, length)."""
+    if isinstance(law, str):
+        module, init, inv, length = "APA_Arith", "Init", law, 0
+    else:
+        module, init, inv, length = law
+    out = os.path.join(WORK, "apalache-%s-%s-%d" % (inv, init, os.getpid()))
     try:
-        r = subprocess.run(["apalache-mc", "check", "--length=0", "--inv=" + law, "--out-dir=" + out, "APA_Arith.tla"], cwd=SPEC,
-                           stdout=subprocess.PIPE, stderr=subprocess.STDOUT, text=True, timeout=timeout)
+        r = subprocess.run(["apalache-mc", "check", "--init=" + init, "--length=%d" % length, "--inv=" + inv, "--out-dir=" + out, module + ".tla"],
+                           cwd=SPEC, stdout=subprocess.PIPE, stderr=subprocess.STDOUT, text=True, timeout=timeout)
     except subprocess.TimeoutExpired:
-        raise ToolError("apalache timed out on " + law)
+        raise ToolError("apalache timed out on %s" % (law,))
     finally:
         shutil.rmtree(out, ignore_errors=True)
     if "The outcome is: NoError" not in r.stdout:
         raise ToolError("Apalache does not confirm the specification-level law %s:\n%s" % (law, r.stdout[-2000:]))
-    return dict(law=law, outcome="NoError", domain="all 32-bit values (symbolic)")
+    return dict(law="%s!%s from %s, length %d" % (module, inv, init, length), outcome="NoError", domain="all 32-bit values (symbolic)")
 
 
 _OUT_RE = re.compile(r'"out":\{(?:"e":"[^"]*",)?"k":"(\w+)"')
